@@ -680,8 +680,29 @@ class FakeSocket(object):
         W.log('sendall', (_dig(data),), None)
 
     def send(self, data, flags=0):
-        self.sendall(data)
-        return len(data)
+        # a blocking socket queues everything (like sendall); one with a timeout (or non-blocking) takes what fits into
+        # the send buffer right now and reports how much that was
+        if self._timeout is None:
+            self.sendall(data)
+            return len(data)
+        W.sys_enter('send')
+        if self._fd < 0:
+            raise oserr(errno.EBADF)
+        K.touch(self._fd, 'send')
+        end = self._end
+        t = self._timeout
+        try:
+            if end.write_room() <= 0:
+                if t == 0:
+                    raise BlockingIOError(errno.EAGAIN, 'Resource temporarily unavailable')
+                if not W.block(lambda: end.write_room() > 0, _us(t), 'send'):
+                    raise _socket.timeout('timed out')
+            n = end.write_now(bytes(data))
+        except OSError as e:
+            W.log('send', (_dig(bytes(data)),), type(e).__name__)
+            raise
+        W.log('send', (_dig(bytes(data)),), n)
+        return n
 
     def shutdown(self, how):
         W.sys_enter('shutdown')
